@@ -24,9 +24,9 @@ func (C08) Plan(tier string) core.Plan {
 
 func (C08) Info() core.Info {
 	return core.Info{
-		Rule:        "scope of the statement: converters with <=1 input (providers, chains of depth 1-4, cycles, bidirectional pairs), no subtype labels, every name denotes one type; targets with 1-3 parameters and 0-2 outputs; a PRNG-chosen subset of the needed values is supplied (named and type-only); input filters are PRNG-chosen subsets of the type pool (raw func, FilterOr(FilterType...), FilterAnd), output filters likewise; history = Redefine, call of the result with a fresh token (sometimes the zero value) per declared input, sometimes a second Redefine with a different filter (filter flip) and its call. Oracle per successful Redefine: every declared input passes that call's input filter and is not a supplied value; the call of the result does not fail for lack of an argument, runs the original target once with C01-valid arguments and returns the target's own products; Redefine fails iff an output is rejected by the output filter (checked in the direction stated) and must succeed when every target parameter passes the input filter. Non-trivial: >=1 converter and an input filter; distinct = distinct (world shape, event-log hash)",
+		Rule:        "scope of the statement: converters with <=1 input (providers, chains of depth 1-4, cycles, bidirectional pairs), no subtype labels, every name denotes one type; targets with 1-3 parameters and 0-2 outputs; a PRNG-chosen subset of the needed values is supplied (named and type-only), some of them as NewFunc defaults of the target; sometimes two redefined functions are made from option lists sharing one backing array; input filters are PRNG-chosen subsets of the type pool (raw func, FilterOr(FilterType...), FilterAnd), output filters likewise; history = Redefine, call of the result with a fresh token (sometimes the zero value) per declared input, sometimes a second Redefine with a different filter (filter flip) and its call. Oracle per successful Redefine: every declared input passes that call's input filter and is not a supplied value; the call of the result does not fail for lack of an argument, runs the original target once with C01-valid arguments and returns the target's own products; Redefine fails iff an output is rejected by the output filter (checked in the direction stated) and must succeed when every target parameter passes the input filter. Non-trivial: >=1 converter and an input filter; distinct = distinct (world shape, event-log hash)",
 		Assumptions: []string{"a declared input 'is a supplied value' when its name and type (named) or its type (type-only) equal a supplied label"},
-		Probes:      []string{"c08_redefine_ok", "c08_redefine_failed", "c08_calls_of_redefined", "c08_chain_ge2", "c08_filter_excludes_param", "c08_output_filter_rejects", "c08_must_succeed", "c08_typed_supplied", "c08_zero_valued_inputs", "s1_nonidentity_perms"},
+		Probes:      []string{"c08_redefine_ok", "c08_redefine_failed", "c08_calls_of_redefined", "c08_chain_ge2", "c08_filter_excludes_param", "c08_output_filter_rejects", "c08_must_succeed", "c08_typed_supplied", "c08_zero_valued_inputs", "c08_target_defaults", "c08_shared_option_slice", "s1_nonidentity_perms"},
 		Real:        realComponents,
 		Simulated:   simComponents,
 	}
@@ -172,6 +172,39 @@ func (C08) Gen(r *simrt.RNG, tier string) core.Case {
 		j := r.Intn(i + 1)
 		args[i], args[j] = args[j], args[i]
 	}
+	// some supplied values are attached to the target by NewFunc instead
+	if r.Chance(1, 4) {
+		var keep []int
+		for _, a := range args {
+			if k := w.Args[a].Kind; (k == world.ArgNamed || k == world.ArgTyped) && r.Bool() {
+				w.Parties[0].Defaults = append(w.Parties[0].Defaults, a)
+			} else {
+				keep = append(keep, a)
+			}
+		}
+		args = keep
+	}
+	// two redefined functions whose option lists were carved out of one slice:
+	// Redefine(base...), Redefine(append(base, extra)...), call the first, call the second
+	if r.Chance(1, 6) && len(args) > 0 {
+		extra := -1
+		for ai, a := range w.Args {
+			if (a.Kind == world.ArgNamed || a.Kind == world.ArgTyped) && !containsInt(args, ai) && !containsInt(w.Parties[0].Defaults, ai) {
+				extra = ai
+			}
+		}
+		if extra < 0 {
+			ty := univ[r.Intn(nt)]
+			w.Args = append(w.Args, world.ArgSpec{Kind: world.ArgTyped, Label: world.Label{Type: ty}})
+			extra = len(w.Args) - 1
+		}
+		w.Ops = append(w.Ops,
+			world.Op{Kind: world.OpRedefine, Target: 0, Args: append([]int{}, args...)},
+			world.Op{Kind: world.OpRedefine, Target: 0, Args: append(append([]int{}, args...), extra), ShareArgsWith: 1},
+			world.Op{Kind: world.OpCallRedef, Redef: 0},
+			world.Op{Kind: world.OpCallRedef, Redef: 1})
+		return RCase{W: w}
+	}
 	pairs := 1
 	if r.Chance(1, 4) {
 		pairs = 2
@@ -208,7 +241,7 @@ func c08Valid(w world.World) bool {
 		return true
 	}
 	for pi, p := range w.Parties {
-		if p.Once || p.InForm == world.FormBuilt || len(p.Defaults) != 0 {
+		if p.Once || p.InForm == world.FormBuilt || (pi != 0 && len(p.Defaults) != 0) {
 			return false
 		}
 		if pi != 0 && len(p.In) > 1 {
@@ -298,6 +331,12 @@ func (C08) Run(c core.Case, ctx *core.Ctx) []core.Violation {
 						ctx.St.Inc("c08_typed_supplied")
 						break
 					}
+				}
+				if len(t.Defaults) > 0 {
+					ctx.St.Inc("c08_target_defaults")
+				}
+				if o.ShareArgsWith != 0 {
+					ctx.St.Inc("c08_shared_option_slice")
 				}
 				outRejected := false
 				if view.FilterOut != nil {
